@@ -62,8 +62,10 @@ OPEN_STATEMENTS = [
     'Model, not driven)',
     'tree_term_support / tree_car_ann / tree_number_diagonal / tree_equiv_bk ARE theorems (the tree variant has no statement '
     'left to the oracle only)',
-    'isospectrality with Jordan-Wigner / preservation of expectation values are not restated: they follow from bk_exact / '
-    'tree_exact + injectivity of enc (the transformed operator is JW conjugated by the relabelling enc); CAR, diagonal '
+    'equivalence with Jordan-Wigner IS a theorem: <enc s\'| bk(A) |enc s> = <s\'| jw(A) |s> for bravyi_kitaev and '
+    'bravyi_kitaev_tree (bk_equiv_jw, tree_equiv_jw: isospectrality, equal expectation values), as are linearity, '
+    'preservation of Hermiticity and faithfulness (bk_linear, bk_hermitian_iff_and_faithful); multiplicativity is not '
+    'restated (bk_equiv_jw + C04 jw_multiplicative); CAR, diagonal '
     'number operators and the vacuum ARE theorems (bk_car, bk_car_ann, bk_number_diagonal, bk_vacuum, tree_car)',
 ]
 
